@@ -27,7 +27,7 @@ func (c12) Size(tier string) Size {
 	return Size{Batches: 4, Cases: 10}
 }
 func (c12) Rule() string {
-	return "binary built with -race (GORACE halt_on_error=0, log files counted, not the exit code). case = scenario: random schema of struct-backed and soft types (incl. soft types with nil maps) built once, then per goroutine a private list of operations from {NewURLFromRaw, NewRequest, UnmarshalDocument, UnmarshalPartialResource, GetType(n).New()+Set, MarshalDocument of a goroutine-private document made of resources of the shared types, GetType, HasType, Check, Rels}. Phase 0 (cold start): several brand-new copies of the schema are FIRST used by up to 16 goroutines at once (each starts by creating a resource of every type), so lazily initialised shared state is initialised under contention. Phase A (sequential): every op once, result fingerprint recorded, deep reflective fingerprint of the schema (exported and unexported state) compared before/after EACH op. Phase B: G in {2,4,8,16} goroutines with GOMAXPROCS in {2,16}, released together, each running its list N times into private buffers (no shared monitor state). Phase C: every concurrent result equals its sequential baseline; schema fingerprint unchanged; race log files parsed and deduplicated by the pair of outermost library frames. Payloads carry a resource-level meta object; objects returned by NewURLFromRaw / NewRequest / Unmarshal* are kept by the goroutine and read again three calls later (a returned object belongs to its caller: a later call must not change it), sequentially and concurrently. Non-trivial = scenario with >= 2 goroutines and >= 3 distinct op kinds; distinct = scenario hash."
+	return "binary built with -race (GORACE halt_on_error=0, log files counted, not the exit code). case = scenario: random schema of struct-backed and soft types (incl. soft types with nil maps) built once, then per goroutine a private list of operations from {NewURLFromRaw, NewRequest, UnmarshalDocument, UnmarshalPartialResource, GetType(n).New()+Set, MarshalDocument of a goroutine-private document made of resources of the shared types, GetType, HasType, Check, Rels}. Phase 0 (cold start): several brand-new copies of the schema are FIRST used by up to 16 goroutines at once (each starts by creating a resource of every type), so lazily initialised shared state is initialised under contention. Phase A (sequential): every op once, result fingerprint recorded, deep reflective fingerprint of the schema (exported and unexported state) compared before/after EACH op. Phase B: G in {2,4,8,16} goroutines with GOMAXPROCS in {2,16}, released together, each running its list N times into private buffers (no shared monitor state). Phase C: every concurrent result equals its sequential baseline; schema fingerprint unchanged; race log files parsed and deduplicated by the pair of outermost library frames. Payloads carry a resource-level meta object; objects returned by NewURLFromRaw / NewRequest / Unmarshal* are kept by the goroutine and read again three calls later (a returned object belongs to its caller: a later call must not change it), sequentially and concurrently. Directed: a hand-assembled schema (type literals, one name used by an attribute and a relationship, a relationship without FromType) goes through every read-only operation but marshaling, fingerprint after each, then 8 goroutines on brand-new copies. Non-trivial = scenario with >= 2 goroutines and >= 3 distinct op kinds; distinct = scenario hash."
 }
 func (c12) Assumptions() []string {
 	return []string{"the race detector is happens-before based: it reports races between accesses the workload performs, whatever their timing, and nothing about accesses not performed",
@@ -703,4 +703,150 @@ func (m c12) Case(c *Ctx, r *RNG) {
 	}
 }
 
-func (m c12) Directed(c *Ctx) {}
+// Directed: schemas assembled by hand (type literals, Type.AddAttr / Type.AddRel), which can hold what the
+// validated builders never produce: a soft type in which one name is both an attribute and a relationship, a
+// relationship without FromType, nil maps. Schema.Check accepts them, so they are schemas "that have been built";
+// the read-only operations must leave them alone too. (No marshaling here: a resource of a type with such a pair
+// cannot be marshaled by the unchanged library either.)
+func (m c12) Directed(c *Ctx) {
+	c.Name = "hand-assembled-schemas"
+	build := func() *jsonapi.Schema {
+		users := jsonapi.Type{Name: "users", Attrs: map[string]jsonapi.Attr{"name": {Name: "name", Type: jsonapi.AttrTypeString}}, Rels: map[string]jsonapi.Rel{}}
+		notes := jsonapi.Type{Name: "notes",
+			Attrs: map[string]jsonapi.Attr{"owner": {Name: "owner", Type: jsonapi.AttrTypeString}, "text": {Name: "text", Type: jsonapi.AttrTypeString, Nullable: true}},
+			Rels:  map[string]jsonapi.Rel{"owner": {FromName: "owner", ToOne: true, ToType: "users"}, "readers": {FromType: "notes", FromName: "readers", ToType: "users"}}}
+		bare := jsonapi.Type{Name: "bare"}
+		_ = bare.AddAttr(jsonapi.Attr{Name: "n", Type: jsonapi.AttrTypeInt})
+		_ = bare.AddRel(jsonapi.Rel{FromName: "n2", ToType: "bare"})
+		return &jsonapi.Schema{Types: []jsonapi.Type{users, notes, bare}}
+	}
+	ops := []struct {
+		name string
+		run  func(s *jsonapi.Schema) string
+	}{
+		{"UnmarshalResource", func(s *jsonapi.Schema) string {
+			res, err := jsonapi.UnmarshalResource([]byte(`{"type":"notes","id":"n1","attributes":{"owner":"Ann","text":null},"relationships":{"owner":{"data":{"type":"users","id":"u1"}},"readers":{"data":[{"type":"users","id":"u2"}]}}}`), s)
+			if err != nil {
+				return "error"
+			}
+			return fmt.Sprint(res.Get("id"), len(res.Attrs()), len(res.Rels()), res.Get("owner"), res.Get("readers"))
+		}},
+		{"UnmarshalDocument", func(s *jsonapi.Schema) string {
+			doc, err := jsonapi.UnmarshalDocument([]byte(`{"data":[{"type":"notes","id":"n1","attributes":{"owner":"Ann"}},{"type":"bare","id":"b1","attributes":{"n":3}}]}`), s)
+			if err != nil {
+				return "error"
+			}
+			col, _ := doc.Data.(jsonapi.Collection)
+			if col == nil {
+				return "no collection"
+			}
+			out := ""
+			for i := 0; i < col.Len(); i++ {
+				r := col.At(i)
+				out += fmt.Sprint(r.GetType().Name, r.Get("id"), len(r.Attrs()), len(r.Rels()), ";")
+			}
+			return out
+		}},
+		{"UnmarshalPartialResource", func(s *jsonapi.Schema) string {
+			res, err := jsonapi.UnmarshalPartialResource([]byte(`{"type":"notes","id":"n2","attributes":{"owner":"Bob"},"relationships":{"readers":{"data":[]}}}`), s)
+			if err != nil {
+				return "error"
+			}
+			return fmt.Sprint(res.Get("id"), len(res.Attrs()), len(res.Rels()))
+		}},
+		{"New", func(s *jsonapi.Schema) string {
+			out := ""
+			for _, n := range []string{"notes", "users", "bare"} {
+				typ := s.GetType(n)
+				res := typ.New()
+				res.Set("id", "x")
+				res.Set("owner", "Zed")
+				res.Set("n", 4)
+				_ = res.Get("owner")
+				out += fmt.Sprint(res.GetType().Name, len(res.Attrs()), len(res.Rels()), res.Get("id"), ";")
+			}
+			return out
+		}},
+		{"NewURLFromRaw", func(s *jsonapi.Schema) string {
+			out := ""
+			for _, raw := range []string{"/notes/n1/owner", "/notes/n1/relationships/readers", "/notes?fields[notes]=owner,text,readers&include=owner,readers&sort=owner,-text", "/bare/b1/n2"} {
+				u, err := jsonapi.NewURLFromRaw(s, raw)
+				if err != nil {
+					out += "error;"
+					continue
+				}
+				out += u.String() + ";"
+			}
+			return out
+		}},
+		{"Queries", func(s *jsonapi.Schema) string {
+			return fmt.Sprint(s.HasType("notes"), s.HasType("nope"), len(s.GetType("notes").Rels), len(s.GetType("notes").Attrs), len(s.Rels()), len(s.Check()))
+		}},
+	}
+	// sequentially: fingerprint after each op
+	schema := build()
+	fp0 := schemaFingerprint(schema)
+	base := make([]string, len(ops))
+	for round := 0; round < 2; round++ {
+		for i, op := range ops {
+			var res string
+			if pi := Guard(func() { res = op.run(schema) }); pi != nil {
+				res = "panic:" + pi.Frame + ":" + panicClass(pi.Val)
+				c.Count("baseline_panics")
+			}
+			c.Count("hand_assembled_sequential_ops")
+			if fp := schemaFingerprint(schema); fp != fp0 {
+				c.Violate("schema-modified-by/"+op.name+"/hand-assembled", "the hand-assembled schema changed during a sequential %s: before %s\nafter %s", op.name, clip(fp0, 1500), clip(fp, 1500))
+				return
+			}
+			if round == 0 {
+				base[i] = res
+			} else if res != base[i] {
+				c.Violate("result-differs-second-time/"+op.name+"/hand-assembled", "%s gave %q, then %q on the same schema", op.name, clip(base[i], 300), clip(res, 300))
+				return
+			}
+		}
+	}
+	// concurrently, on brand-new copies
+	for round := 0; round < c.Pick(4, 12); round++ {
+		fresh := build()
+		const G = 8
+		got := make([][]string, G)
+		var start, done sync.WaitGroup
+		start.Add(1)
+		for g := 0; g < G; g++ {
+			done.Add(1)
+			go func(g int) {
+				defer done.Done()
+				got[g] = make([]string, len(ops))
+				start.Wait()
+				for k := 0; k < len(ops)*3; k++ {
+					i := (k + g) % len(ops)
+					func() {
+						defer func() {
+							if rec := recover(); rec != nil {
+								got[g][i] = "panic"
+							}
+						}()
+						got[g][i] = ops[i].run(fresh)
+					}()
+				}
+			}(g)
+		}
+		start.Done()
+		done.Wait()
+		c.Count("hand_assembled_concurrent_rounds")
+		if fp := schemaFingerprint(fresh); fp != fp0 {
+			c.Violate("schema-modified-concurrently/hand-assembled", "the hand-assembled schema changed while %d goroutines used it: %s -> %s", G, clip(fp0, 1200), clip(fp, 1200))
+			return
+		}
+		for g := range got {
+			for i := range ops {
+				if got[g][i] != base[i] && !strings.HasPrefix(base[i], "panic:") {
+					c.Violate("concurrent-result-differs/"+ops[i].name+"/hand-assembled", "goroutine %d got %q, sequentially %q", g, clip(got[g][i], 300), clip(base[i], 300))
+					return
+				}
+			}
+		}
+	}
+}
